@@ -97,27 +97,29 @@ theorem prepare_ok (hs : Hashing) (c : Chain) (t : Nat) (bt : Batch) (mb : Int) 
   unfold prepare at h
   split at h
   · cases h
-  · simp only at h
-    split at h
+  · split at h
     · cases h
-    · rename_i hn
-      simp only [Except.ok.injEq] at h
-      subst h
-      refine ⟨⟨?_, by simp⟩, rfl, rfl, rfl, rfl⟩
-      intro p hp
-      simp only at hp ⊢
-      obtain ⟨a, b, c'⟩ := mem_mkIndex _ _ p hp
-      have hbest : (0 : Int) ≤ (c.best : Int) := Int.natCast_nonneg _
-      obtain ⟨hs1, hs2⟩ := rangeOf_bounds (t : Int) (c.best : Int) bt mb hbest
-      generalize rangeOf (t : Int) (c.best : Int) bt mb = r at *
-      have hbl : c.best ≤ c.fhs.length - 1 := by unfold Chain.best; omega
-      have hstart : 1 ≤ r.1.toNat := by omega
-      have hb : p.1 < c.fhs.length := by omega
-      refine ⟨a, by omega, hb, ?_, ?_⟩
-      · rw [getD_take_drop _ _ _ _ (by omega)]
-        congr 1; omega
-      · rw [getD_take_drop _ _ _ _ (by omega)]
-        congr 1; omega
+    · simp only at h
+      split at h
+      · cases h
+      · rename_i hn
+        simp only [Except.ok.injEq] at h
+        subst h
+        refine ⟨⟨?_, by simp⟩, rfl, rfl, rfl, rfl⟩
+        intro p hp
+        simp only at hp ⊢
+        obtain ⟨a, b, c'⟩ := mem_mkIndex _ _ p hp
+        have hbest : (0 : Int) ≤ (c.best : Int) := Int.natCast_nonneg _
+        obtain ⟨hs1, hs2⟩ := rangeOf_bounds (t : Int) (c.best : Int) bt mb hbest
+        generalize rangeOf (t : Int) (c.best : Int) bt mb = r at *
+        have hbl : c.best ≤ c.fhs.length - 1 := by unfold Chain.best; omega
+        have hstart : 1 ≤ r.1.toNat := by omega
+        have hb : p.1 < c.fhs.length := by omega
+        refine ⟨a, by omega, hb, ?_, ?_⟩
+        · rw [getD_take_drop _ _ _ _ (by omega)]
+          congr 1; omega
+        · rw [getD_take_drop _ _ _ _ (by omega)]
+          congr 1; omega
 
 /-! ### the handler -/
 
